@@ -378,15 +378,38 @@ def execute(scn, forced=None):
     if "detector" in scn:
         r_, c_ = scn["detector"]["row"], scn["detector"]["col"]
         np.save(os.path.join(scratch.path, "qe.npy"), 0.2 + 0.6 * (np.arange(r_ * c_, dtype=float).reshape(r_, c_) % 5) / 5.0)
+    cwd = os.getcwd()
+    os.chdir(scratch.path)  # 'cosmix' writes its statistics into ./data of the current directory
     try:
         _execute_reps(scn, forced, kind, digests, excs, infos, restored, viol)
     finally:
+        os.chdir(cwd)
         scratch.__exit__(None, None, None)
         _SCRATCH["dir"] = None
     return _judge(scn, kind, digests, excs, infos, restored, viol, stats)
 
 
+_WARM: set = set()
+
+
+def _warm_numba(scn):
+    """Compile the numba kernels of the EMCCD models before any seam is active: numba resolves 'np.random.poisson' when it
+    compiles, and must find numpy's function there, not the generator seam's wrapper."""
+    names = {m["name"] for _, m in world.all_models(scn)} if "pipeline" in scn else {scn.get("model")}
+    for name in sorted(names & {"multiplication_register", "multiplication_register_cic"} - _WARM):
+        import pyxel.models.charge_transfer as ct
+
+        det = world.build_detector({**scn["detector"], "type": "CCD"}) if scn["detector"]["type"] != "CCD" else world.build_detector(scn["detector"])
+        det.pixel.array = np.ones((scn["detector"]["row"], scn["detector"]["col"]), dtype=float)
+        kw = dict(PIPE_NOSEED[name][2][0])
+        state = np.random.get_state()
+        getattr(ct, name)(det, **kw)
+        np.random.set_state(state)
+        _WARM.add(name)
+
+
 def _execute_reps(scn, forced, kind, digests, excs, infos, restored, viol):
+    _warm_numba(scn)
     for rep in range(2):
         s0 = _set_prior(scn["prior"][rep])
         try:
